@@ -247,6 +247,30 @@ def valueAcc (s : TState) (o sa : Id) : Except Err Rat := do
 def nonzeroAcc (s : TState) : List (Id × Id) :=
   (s.obs.ids.zip s.rows).flatMap (fun (o, r) => (s.samp.ids.zip r).filterMap (fun (sa, v) => if v != 0 then some (o, sa) else none))
 
+/-- `Except`-valued map, left to right, stopping at the first error -/
+def mapE {α β : Type} (f : α → Except Err β) : List α → Except Err (List β)
+  | [] => .ok []
+  | a :: as =>
+    match f a with
+    | .error e => .error e
+    | .ok b =>
+      match mapE f as with
+      | .error e => .error e
+      | .ok bs => .ok (b :: bs)
+
+/-- `Table.nonzero()` as written: on the CSR matrix, for every row walk `indices[indptr[r]:indptr[r+1]]`
+and yield `(obs_ids[r], samp_ids[col])` for every STORED entry (bounds-checked reads). -/
+def nonzeroKernel (cs : CS Rat) (obsIds sampIds : List Id) : Except Err (List (Id × Id)) :=
+  match mapE (fun i =>
+      match getE obsIds i with
+      | .error e => .error e
+      | .ok o => mapE (fun (e : Nat × Rat) =>
+          match getE sampIds e.1 with
+          | .error er => .error er
+          | .ok sa => .ok (o, sa)) (cs.slice i)) (List.range cs.nMajor) with
+  | .error e => .error e
+  | .ok rows => .ok rows.flatten
+
 def sumRow (r : List Rat) : Rat := r.foldl (· + ·) 0
 def sumWhole (s : TState) : Rat := sumRow (s.rows.map sumRow)
 /-- `sum('observation')` = scipy axis 1 = one total per row -/
